@@ -143,28 +143,32 @@ FIXED = [
 # ---------------------------------------------------------------- direct checks on the implementation
 
 def delta_rounding_near_one(state, e, d, i):
-    """Is the refusal of spend #i (1-based) of the spend-back experiment the known rounding of the DELTA total next to a
-    delta ceiling close to 1?  Exact criterion (all four must hold; anything else stays `C18:spendable`):
-      1. the delta ceiling is >= 0.99 (there (1 - ceiling) * k * 1e-15, what the property's 1e-15 allowance buys in terms
-         of the product (1-slack)*prod(1-d_j), is below the resolution 2^-53 of a total next to 1);
+    """Is the refusal of spend #i (1-based) of the spend-back experiment the known rounding of the DELTA total, whose
+    double value next to 1 has a resolution (2^-53) coarser than what the property's 1e-15 allowance buys?
+    Exact criterion (all four must hold; anything else stays `C18:spendable`), with u = ulp(delta ceiling):
+      1. unresolvable allowance: i * 1e-15 * (1 - ceiling) <= 4u  (the whole allowance of the i spends, expressed on the
+         product (1-slack)*prod(1-d_j) that the total is made of, is at most 4 units in the last place of the total);
       2. the implementation's own total(history + i*[(e, d)]) has epsilon <= the epsilon ceiling (epsilon is not the cause);
-      3. its delta overshoots the delta ceiling by at most 16 ulp(ceiling) (a handful of roundings, not a formula error);
-      4. in EXACT rational arithmetic on the same doubles, 1 - (1-slack) * prod(1-d_j) * (1-d)^i <= ceiling + 64 ulp(1-ceiling),
-         i.e. the spends do fit; only the double accumulation of the product says otherwise."""
+      3. its delta overshoots the delta ceiling by at most 64u (a handful of roundings, not a formula error);
+      4. in EXACT rational arithmetic on the same doubles, 1 - (1-slack) * prod(1-d_j) * (1-d)^i <= ceiling + 64u
+         (the spends fit up to the rounding with which remaining() itself could read the recorded delta total)."""
     ce, cd, slack, spent = state
-    if not cd >= 0.99:
+    if not (0 < cd <= 1):
+        return False
+    u = math.ulp(cd)
+    if not i * 1e-15 * (1 - cd) <= 4 * u:
         return False
     try:
         t = quiet(make(ce, cd, slack, []).total, spent_budget=list(spent) + [(e, d)] * i)
     except Exception:  # noqa
         return False
     te, td = float(t[0]), float(t[1])
-    if not (te <= ce and cd < td <= cd + 16 * math.ulp(cd)):
+    if not (te <= ce and cd < td <= cd + 64 * u):
         return False
     prod = (1 - Fraction(slack)) * (1 - Fraction(d)) ** i
     for _, dj in spent:
         prod *= 1 - Fraction(dj)
-    return 1 - prod <= Fraction(cd) + 64 * Fraction(math.ulp(1 - cd))
+    return 1 - prod <= Fraction(cd) + 64 * Fraction(u)
 
 
 def check_state(state, k, extra=None, live_rem=None, live_sig=None, live_desc="the long-lived accountant's"):
@@ -583,7 +587,9 @@ def replay(ctx, data):
     if d.get("typed"):
         ce, cd, slack, spent = d["state"]
         state = (float(u(ce)), float(u(cd)), float(u(slack)), [(float(u(e)), float(u(x))) for e, x in spent])
-        return bool(check_typed(d["typed"], state, int(d["k"])))
+        viol = check_typed(d["typed"], state, int(d["k"]))
+        sig = data.get("signature")
+        return any(sg == sig for sg, _ in viol) if sig else bool(viol)
     if d.get("live"):
         def fix(x):
             return [fix(y) for y in x] if isinstance(x, list) else u(x)
